@@ -316,7 +316,7 @@ Section Values.
     fnum f * N = phi (total rs) * E * fden f.
   Proof.
     induction 1 as [|r rs [He Hn] Hu IH]; cbn [fold_right total map].
-    - cbn. rewrite phi_0. ring.
+    - change (total []) with 0%Z. rewrite phi_0. cbn [fzero fnum fden]. ring.
     - cbn zeta in IH. fold (total rs). set (acc := fold_right _ fzero rs) in *.
       cbn [fadd fnum fden]. rewrite phi_add, He, Hn.
       transitivity (phi (rC r) * E * (fden acc * N) + (fnum acc * N) * N); [ring|]. rewrite IH. ring.
@@ -334,10 +334,10 @@ Section Values.
     intros csum nz rs Hd Hu Ht.
     assert (Hsep_e : ksum (map (fun r => phi (rC r) * re r) rs) = E).
     { rewrite (ksum_uniform E). - rewrite Ht, phi_1. ring.
-      - intros r Hr. rewrite Forall_forall in Hu. destruct (Hu r Hr) as [-> _]. reflexivity. }
+      - intros r Hr. unfold uniform in Hu. rewrite Forall_forall in Hu. destruct (Hu r Hr) as [-> _]. reflexivity. }
     assert (Hsep_n : ksum (map (fun r => phi (rC r) * rn r) rs) = N).
     { rewrite (ksum_uniform N). - rewrite Ht, phi_1. ring.
-      - intros r Hr. rewrite Forall_forall in Hu. destruct (Hu r Hr) as [_ ->]. reflexivity. }
+      - intros r Hr. unfold uniform in Hu. rewrite Forall_forall in Hu. destruct (Hu r Hr) as [_ ->]. reflexivity. }
     assert (Hloc := local_sum_uniform rs Hu). cbn zeta in Hloc. rewrite Ht, phi_1 in Hloc.
     destruct csum, nz; try discriminate Hd; unfold combine_value; cbn [negb truthy];
       eexists; (split; [reflexivity|]);
